@@ -145,7 +145,7 @@ func ordOwn(w *World, r *EngineResult) {
 			if n := cg.Nodes[fn]; n != nil {
 				for _, in := range n.In {
 					if k, ok := in.Site.Common().Args[pi].(*ssa.Const); ok && k.Value != nil && k.Value.Kind() == constant.Bool {
-						if constant.BoolVal(k.Value) {
+						if cBool(k.Value) {
 							sawT = true
 						} else {
 							sawF = true
@@ -166,7 +166,7 @@ func ordOwn(w *World, r *EngineResult) {
 	if n := cg.Nodes[loop]; n != nil {
 		for _, in := range n.In {
 			k, ok := in.Site.Common().Args[flagIdx].(*ssa.Const)
-			if !ok || k.Value == nil || !constant.BoolVal(k.Value) {
+			if !ok || k.Value == nil || !cBool(k.Value) {
 				continue
 			}
 			nB++
